@@ -7,10 +7,12 @@ import (
 	"strings"
 
 	sdk "github.com/cosmos/cosmos-sdk/types"
+	authzkeeper "github.com/cosmos/cosmos-sdk/x/authz/keeper"
+	distrkeeper "github.com/cosmos/cosmos-sdk/x/distribution/keeper"
 	"github.com/ethereum/go-ethereum/common"
 	"github.com/ethereum/go-ethereum/crypto"
+	stakingkeeper "github.com/haqq-network/haqq/x/staking/keeper"
 
-	haqqapp "github.com/haqq-network/haqq/app"
 	distrpc "github.com/haqq-network/haqq/precompiles/distribution"
 	stakingpc "github.com/haqq-network/haqq/precompiles/staking"
 	evmtypes "github.com/haqq-network/haqq/x/evm/types"
@@ -40,11 +42,11 @@ type asm struct {
 	fix    map[int]string
 }
 
-func newAsm() *asm                  { return &asm{labels: map[string]int{}, fix: map[int]string{}} }
-func (a *asm) op(b ...byte) *asm    { a.code = append(a.code, b...); return a }
-func (a *asm) push1(v byte) *asm    { return a.op(0x60, v) }
-func (a *asm) label(n string) *asm  { a.labels[n] = len(a.code); return a.op(0x5b) }
-func (a *asm) pushl(n string) *asm  { a.op(0x61); a.fix[len(a.code)] = n; return a.op(0, 0) }
+func newAsm() *asm                 { return &asm{labels: map[string]int{}, fix: map[int]string{}} }
+func (a *asm) op(b ...byte) *asm   { a.code = append(a.code, b...); return a }
+func (a *asm) push1(v byte) *asm   { return a.op(0x60, v) }
+func (a *asm) label(n string) *asm { a.labels[n] = len(a.code); return a.op(0x5b) }
+func (a *asm) pushl(n string) *asm { a.op(0x61); a.fix[len(a.code)] = n; return a.op(0, 0) }
 func (a *asm) bytes() []byte {
 	for pos, n := range a.fix {
 		binary.BigEndian.PutUint16(a.code[pos:], uint16(a.labels[n]))
@@ -54,10 +56,10 @@ func (a *asm) bytes() []byte {
 
 func puppetRuntime() []byte {
 	const (
-		STOP, ADD, LT, EQ, ISZERO, AND, SHR                   = 0x00, 0x01, 0x10, 0x14, 0x15, 0x16, 0x1c
-		CALLDATALOAD, CALLDATASIZE, CALLDATACOPY              = 0x35, 0x36, 0x37
-		POP, MLOAD, MSTORE, SSTORE, JUMP, JUMPI, GAS, DUP1    = 0x50, 0x51, 0x52, 0x55, 0x56, 0x57, 0x5a, 0x80
-		LOG0, CALL, REVERT                                    = 0xa0, 0xf1, 0xfd
+		STOP, ADD, LT, EQ, ISZERO, AND, SHR                = 0x00, 0x01, 0x10, 0x14, 0x15, 0x16, 0x1c
+		CALLDATALOAD, CALLDATASIZE, CALLDATACOPY           = 0x35, 0x36, 0x37
+		POP, MLOAD, MSTORE, SSTORE, JUMP, JUMPI, GAS, DUP1 = 0x50, 0x51, 0x52, 0x55, 0x56, 0x57, 0x5a, 0x80
+		LOG0, CALL, REVERT                                 = 0xa0, 0xf1, 0xfd
 	)
 	dup := func(n int) byte { return byte(0x80 + n - 1) }
 	a := newAsm()
@@ -100,8 +102,6 @@ func puppetCall(mode byte, target common.Address, value *big.Int, data []byte) [
 	out = append(out, byte(len(data)>>8), byte(len(data)))
 	return append(out, data...)
 }
-
-func nwApp() *haqqapp.Haqq { nw, _ := fixture(); return nw.App }
 
 const puppetOrigin = 4 // keyring index of the account that signs puppet transactions and grants the puppet
 
@@ -180,13 +180,17 @@ type puppetScript struct {
 
 // puppetCompile turns the tokens into calldata and computes the reference outcome.
 func puppetCompile(tokens []string, ref *puppetRef, val string) puppetScript {
+	_, kr := fixture()
+	return puppetCompileFor(tokens, ref, val, kr.GetKey(puppetOrigin).Addr, puppetAddr, func() common.Address { return puppetX })
+}
+
+// puppetCompileFor: the same for an arbitrary origin E, puppet address P and payee generator.
+func puppetCompileFor(tokens []string, ref *puppetRef, val string, E, puppetAddr common.Address, payee func() common.Address) puppetScript {
 	sabi, _ := stakingpc.LoadABI()
-	dpc, _ := distrpc.NewPrecompile(nwApp().DistrKeeper, nwApp().StakingKeeper, nwApp().AuthzKeeper)
+	dpc, _ := distrpc.NewPrecompile(distrkeeper.Keeper{}, stakingkeeper.Keeper{}, authzkeeper.Keeper{})
 	dabi := dpc.ABI
 	stk := common.HexToAddress(stakingpc.PrecompileAddress)
 	dst := dpc.Address()
-	_, kr := fixture()
-	E := kr.GetKey(puppetOrigin).Addr
 	var sc puppetScript
 	var rec func(pos int, st *puppetRef, inReverted bool) (int, []byte)
 	// does the frame starting at pos end with ]R ?
@@ -237,7 +241,7 @@ func puppetCompile(tokens []string, ref *puppetRef, val string) puppetScript {
 				st.logs++
 			case f[0] == "P":
 				amt := mustBig(f[1])
-				out = append(out, puppetCall(1, puppetX, amt, nil)...)
+				out = append(out, puppetCall(1, payee(), amt, nil)...)
 				st.dP.Sub(st.dP, amt)
 				st.dX.Add(st.dX, amt)
 			case f[0] == "D" || f[0] == "d":
@@ -344,4 +348,8 @@ func puppetRun(value *big.Int, script []byte, gas uint64) puppetObs {
 
 func (o puppetObs) String() string {
 	return fmt.Sprintf("code=%d failed=%v dsupply=%s dE=%s dP=%s dX=%s bondE=%s bondP=%s slots=%d,%d,%d logs=%d", o.code, o.failed, o.dSupply, o.dE, o.dP, o.dX, o.bondE, o.bondP, o.slots[0], o.slots[1], o.slots[2], o.logs)
+}
+
+func puppetZeroDistr() (distrkeeper.Keeper, stakingkeeper.Keeper, authzkeeper.Keeper) {
+	return distrkeeper.Keeper{}, stakingkeeper.Keeper{}, authzkeeper.Keeper{}
 }
